@@ -1003,3 +1003,96 @@ func c16r6(rc *core.RC) {
 		rc.Unknown("decoder/integer-parsers", token.NoPos, "found %d of parseInt and parseUint", n)
 	}
 }
+
+// ---- C16.R7 inner digit groups are written at full width ----
+
+// AppendInt and AppendUint write the decimal digits two at a time from the end (u[i] = lookup[n%100]; n /= 100).
+// Positional notation allows only the leading group to be shorter than its width: a loop that writes the pairs of an
+// inner group (a chunk cut off a larger value by an enclosing loop) has to write a fixed number of pairs, zeros
+// included. A pair loop nested in a chunking loop that stops when the chunk is used up (`for ; c > 0; c /= 100`)
+// drops the chunk's leading zero pairs, and 5000000000 comes out as 50.
+func c16r7(rc *core.RC) {
+	p := rc.P
+	n := 0
+	for _, name := range []string{"AppendInt", "AppendUint"} {
+		fd := p.Func("encoder", name)
+		if fd == nil || fd.Body == nil {
+			rc.Unknown("encoder."+name, token.NoPos, "digit writer not found")
+			continue
+		}
+		info := p.Info(fd)
+		fn := p.FuncName(fd)
+		rc.Touch(fn)
+		writesPair := func(body *ast.BlockStmt) bool {
+			found := false
+			ast.Inspect(body, func(m ast.Node) bool {
+				if _, isLoop := m.(*ast.ForStmt); isLoop && m != ast.Node(body) {
+					return true
+				}
+				as, ok := m.(*ast.AssignStmt)
+				if !ok || len(as.Lhs) != 1 || len(as.Rhs) != 1 {
+					return true
+				}
+				if _, isIx := core.Unparen(as.Lhs[0]).(*ast.IndexExpr); !isIx {
+					return true
+				}
+				if rix, isIx := core.Unparen(as.Rhs[0]).(*ast.IndexExpr); isIx {
+					if t := info.TypeOf(rix); t != nil && t.String() == "uint16" {
+						found = true
+					}
+				}
+				return true
+			})
+			return found
+		}
+		k := 0
+		var visit func(node ast.Node, outer *ast.ForStmt)
+		visit = func(node ast.Node, outer *ast.ForStmt) {
+			ast.Inspect(node, func(m ast.Node) bool {
+				loop, ok := m.(*ast.ForStmt)
+				if !ok || m == node {
+					return true
+				}
+				if directlyWrites(loop, writesPair) {
+					k++
+					n++
+					key := fmt.Sprintf("%s/pair-loop#%d inner-groups-at-full-width", fn, k)
+					if outer == nil {
+						rc.OK(key, loop.Pos(), "the loop writes the pairs of the whole remaining value (it is not nested in a chunking loop): only the leading pair can be short")
+					} else {
+						// nested: the trip count has to be fixed (condition `k < const` over a counter that the body only increments)
+						fixed := false
+						if be, isBin := core.Unparen(loop.Cond).(*ast.BinaryExpr); isBin && (be.Op == token.LSS || be.Op == token.LEQ || be.Op == token.GTR || be.Op == token.GEQ || be.Op == token.NEQ) {
+							_, lc := core.ConstInt(info, be.Y)
+							_, isDiv := loop.Post.(*ast.AssignStmt)
+							if lc && !isDiv {
+								if inc, isInc := loop.Post.(*ast.IncDecStmt); isInc && core.ObjOf(info, inc.X) == core.ObjOf(info, be.X) {
+									fixed = true
+								}
+							}
+						}
+						rc.Check(fixed, key, loop.Pos(), "a pair loop nested in a chunking loop writes a fixed number of pairs per chunk (a counted loop): one that ends when the chunk is used up (%s) drops the leading zero pairs of an inner group, and the value loses digits", core.Src(p.Fset, loop.Cond))
+					}
+				}
+				visit(loop.Body, loop)
+				return false
+			})
+		}
+		visit(fd.Body, nil)
+	}
+	if n < 2 {
+		rc.Unknown("encoder/pair-loops", token.NoPos, "found %d loops that write digit pairs in AppendInt/AppendUint (confirmed: 2)", n)
+	}
+}
+
+// directlyWrites: the loop's own body (nested loops excluded) satisfies the predicate.
+func directlyWrites(loop *ast.ForStmt, pred func(*ast.BlockStmt) bool) bool {
+	shallow := &ast.BlockStmt{}
+	for _, st := range loop.Body.List {
+		if _, isLoop := st.(*ast.ForStmt); isLoop {
+			continue
+		}
+		shallow.List = append(shallow.List, st)
+	}
+	return pred(shallow)
+}
